@@ -1,4 +1,5 @@
 import Pdpy11.Model.Layout
+import Pdpy11.Model.Path
 /-
 C16  Structural directives preserve meaning.
 
@@ -165,3 +166,115 @@ example : emitBlock (semList [S.bytes [1, 2], S.end_, S.bytes [3]]) 0 = [1, 2] :
 example : (byteDir [1, 255, 0]).run = ⟨.ok [1, 255, 0], {}⟩ := insert_eq_byte [1, 255, 0] (by decide) (by decide)
 
 end Pdpy11.Props.C16
+
+/-! ## one file, however its path is spelled (`devices.resolve_relative_path`, Model.Path) -/
+
+namespace Pdpy11.Props.C16.Paths
+open Pdpy11.Model.Path
+
+/-- an ordinary component: a name -/
+def Ordinary (c : String) : Prop := c ≠ "" ∧ c ≠ "." ∧ c ≠ ".."
+
+theorem step_skip (abs : Bool) (acc : List String) (c : String) (h : c = "" ∨ c = ".") : step abs acc c = acc := by
+  simp [step, h]
+
+theorem step_ord (abs : Bool) (acc : List String) (c : String) (h : Ordinary c) : step abs acc c = c :: acc := by
+  obtain ⟨h1, h2, h3⟩ := h
+  simp [step, h1, h2, h3]
+
+theorem step_up_ord (abs : Bool) (acc : List String) (d : String) (h : Ordinary d) : step abs (d :: acc) ".." = acc := by
+  obtain ⟨_, _, h3⟩ := h
+  simp [step, h3]
+
+/-- `./` and doubled slashes anywhere in a path do not change what it names -/
+theorem norm_insert_dot (abs : Bool) (a b : List String) (c : String) (h : c = "" ∨ c = ".") :
+    normComps abs (a ++ [c] ++ b) = normComps abs (a ++ b) := by
+  simp only [normComps, List.foldl_append, List.foldl_cons, List.foldl_nil, step_skip abs _ c h]
+
+/-- `name/../` anywhere in a path does not change what it names -/
+theorem norm_insert_updown (abs : Bool) (a b : List String) (d : String) (h : Ordinary d) :
+    normComps abs (a ++ [d, ".."] ++ b) = normComps abs (a ++ b) := by
+  simp only [normComps, List.foldl_append, List.foldl_cons, List.foldl_nil, step_ord abs _ d h, step_up_ord abs _ d h]
+
+/-- the kept components, top first: names above, then (relative paths only) a run of `..` -/
+def CleanS (abs : Bool) : List String → Prop
+  | [] => True
+  | c :: rest => (Ordinary c ∧ CleanS abs rest) ∨ (c = ".." ∧ abs = false ∧ ∀ x ∈ rest, x = "..")
+
+theorem cleanS_of_all_up (abs : Bool) (l : List String) (ha : abs = false) (h : ∀ x ∈ l, x = "..") : CleanS abs l := by
+  induction l with
+  | nil => trivial
+  | cons c rest ih =>
+    right
+    exact ⟨h c (by simp), ha, fun x hx => h x (by simp [hx])⟩
+
+theorem step_clean (abs : Bool) (acc : List String) (c : String) (h : CleanS abs acc) : CleanS abs (step abs acc c) := by
+  by_cases h1 : c = "" ∨ c = "."
+  · rw [step_skip abs acc c h1]; exact h
+  · by_cases h2 : c = ".."
+    · subst h2
+      cases acc with
+      | nil =>
+        cases abs with
+        | true => simp [step, CleanS]
+        | false => simp [step, CleanS]
+      | cons top rest =>
+        by_cases ht : top = ".."
+        · subst ht
+          have : step abs (".." :: rest) ".." = ".." :: ".." :: rest := by simp [step]
+          rw [this]
+          rcases h with ⟨ho, _⟩ | ⟨_, ha, hall⟩
+          · exact absurd rfl ho.2.2
+          · right; exact ⟨rfl, ha, fun x hx => by
+              rcases List.mem_cons.mp hx with e | e
+              · exact e
+              · exact hall x e⟩
+        · have : step abs (top :: rest) ".." = rest := by simp [step, ht]
+          rw [this]
+          rcases h with ⟨_, hr⟩ | ⟨e, _, _⟩
+          · exact hr
+          · exact absurd e ht
+    · have ho : Ordinary c := ⟨fun e => h1 (Or.inl e), fun e => h1 (Or.inr e), h2⟩
+      rw [step_ord abs acc c ho]
+      left; exact ⟨ho, h⟩
+
+theorem foldl_clean (abs : Bool) (cs acc : List String) (h : CleanS abs acc) : CleanS abs (cs.foldl (step abs) acc) := by
+  induction cs generalizing acc with
+  | nil => exact h
+  | cons c rest ih => exact ih _ (step_clean abs acc c h)
+
+theorem refold (abs : Bool) (s : List String) (h : CleanS abs s) : s.reverse.foldl (step abs) [] = s := by
+  induction s with
+  | nil => rfl
+  | cons c rest ih =>
+    simp only [List.reverse_cons, List.foldl_append, List.foldl_cons, List.foldl_nil]
+    rcases h with ⟨ho, hr⟩ | ⟨e, ha, hall⟩
+    · rw [ih hr, step_ord abs rest c ho]
+    · subst e
+      rw [ih (cleanS_of_all_up abs rest ha hall)]
+      cases rest with
+      | nil => simp [step, ha]
+      | cons t r =>
+        have : t = ".." := hall t (by simp)
+        subst this
+        simp [step]
+
+/-- **normalising is idempotent**: a resolved path resolves to itself -/
+theorem norm_idem (abs : Bool) (cs : List String) : normComps abs (normComps abs cs) = normComps abs cs := by
+  unfold normComps
+  rw [refold abs _ (foldl_clean abs cs [] trivial)]
+
+/-- a normalised path has no `.`, no empty component, and `..` only in front (relative paths) -/
+theorem norm_clean (abs : Bool) (cs : List String) : CleanS abs (normComps abs cs).reverse := by
+  unfold normComps
+  rw [List.reverse_reverse]
+  exact foldl_clean abs cs [] trivial
+
+/-! the spellings the `.once` check uses all name `x.mac` in `/tmp/d` (components of the joined path) -/
+example : normComps true ["", "tmp", "d", "sub", "..", "x.mac"] = ["tmp", "d", "x.mac"] := by simp [normComps, step]
+example : normComps true ["", "tmp", "d", ".", "sub", "..", ".", "x.mac"] = ["tmp", "d", "x.mac"] := by simp [normComps, step]
+example : normComps true ["", "tmp", "d", "sub", "..", "x.mac"] = normComps true ["", "tmp", "d", "x.mac"] :=
+  norm_insert_updown true ["", "tmp", "d"] ["x.mac"] "sub" (by simp [Ordinary])
+example : normComps false ["..", "a", "..", "..", "b"] = ["..", "..", "b"] := by simp [normComps, step]
+
+end Pdpy11.Props.C16.Paths
